@@ -225,3 +225,30 @@ def tlaps_check(module: str, name: str, timeout: int = 900) -> dict:
         res["failed"] = f.group(0) if f else out[-400:]
     shutil.rmtree(wd / ".tlacache", ignore_errors=True)
     return res
+
+
+def dump_states(module: str, cfg_text: str, name: str, timeout: int = 600) -> list:
+    """TLC -dump: every reachable state of spec/<module>.tla under the cfg, as a list of {variable: TLA+ value text}."""
+    wd = workdir("dump_" + name)
+    cfg = wd / f"{name}.cfg"
+    cfg.write_text(cfg_text)
+    rc, out = _java(["-workers", "1", "-metadir", str(wd / "meta"), "-noGenerateSpecTE", "-config", str(cfg), "-dump", str(wd / "states"),
+                     str(SPEC / f"{module}.tla")], timeout=timeout, cwd=str(SPEC))
+    summ = parse_summary(out)
+    if summ.get("error") or not summ["completed"]:
+        raise TLCError(f"TLC dump failed ({module}): {summ.get('error') or summ.get('violated')}")
+    states, cur = [], None
+    for line in (wd / "states.dump").read_text().splitlines():
+        if line.startswith("State "):
+            cur = {}
+            states.append(cur)
+        elif line.startswith("/\\ ") and cur is not None:
+            k, _, v = line[3:].partition(" = ")
+            cur[k.strip()] = v.strip()
+    shutil.rmtree(wd / "meta", ignore_errors=True)
+    return states
+
+
+def tla_seq_ints(text: str) -> list:
+    """<<1, 2, 3>> or {1, 2} -> [1, 2, 3]"""
+    return [int(x) for x in re.findall(r"-?\d+", text)]
